@@ -9,7 +9,8 @@ import vlib
 EXTRACT_V = ("From Coq Require Import Extraction ExtrOcamlBasic.\n"
              "From ORatio Require Import smt.SatCoreBase smt.SatCore smt.Rup.\n"
              "Extraction Language OCaml.\nSet Extraction Optimize.\n"
-             "Extraction \"sat_model.ml\" p_init p_step p_pre p_dead_after lits_of rup nogood_shape.\n")
+             "Extraction \"sat_model.ml\" p_init p_step p_pre p_dead_after q_init q_step q_pre q_dead_after q_declare q_ext_conflict "
+             "lits_of rup nogood_shape.\n")
 
 
 def build_oracle():
@@ -140,18 +141,30 @@ class Judge:
       root0   : rc=0 from c / p / a / s at root level (no next() no-good recorded so far) => clauses unsatisfiable
       check0  : rc=0 from k => clauses + decisions + lits unsatisfiable or refuted by unit propagation
       values  : every assigned literal is entailed by clauses + no-goods + standing decisions (sampled, by DPLL)
+    With the probe theory (commands tc / tx) the declared theory clauses T are axioms next to F (they enter the RUP stream as
+    axioms when they are declared, and every DPLL query), and in addition
+      theory  : every clause reported by hook kinds 2 / 3 (theory lemma / theory conflict) is a declared theory clause
+      quiet   : after an operation that answered true with an empty queue no clause of F, N, T has all its literals false
+                (the "if" direction of `false iff inconsistent` that propagation + check() owe: a clause was added, its
+                literals are all false, yet the network says consistent)
+      rootfact: a literal assigned at decision level 0 keeps its value for the rest of the history
+      tx0     : tx answering false => F + N + T unsatisfiable (it can only answer false with no decision standing)
     """
 
     def __init__(self, max_solve_vars=20):
         self.F = []            # clauses added (kind 4), in order
         self.N = []            # next() no-goods
+        self.T = []            # declared theory clauses (probe theory)
+        self.root_facts = {}   # variable -> value, once seen assigned at level 0
         self.rup_lines = ["reset", "F 0"]   # stream for the RUP oracle; "F 0" = the unit clause [TRUE_lit]: variable 0 is false
         self.rup_meta = []     # (line index, description) of every L line
         self.problems = []     # (signature, detail dict)
         self.prev = None
         self.decs = []         # the standing decisions as the judge derives them from the commands and the level (not from the implementation's own list)
         self.max_solve_vars = max_solve_vars
-        self.stats = dict(learnt=0, nogoods=0, full_assignments=0, root_false=0, check_false=0, entail_checks=0)
+        self.stats = dict(learnt=0, nogoods=0, full_assignments=0, root_false=0, check_false=0, entail_checks=0,
+                          theory_clauses=0, theory_conflicts=0, theory_lemmas=0, external_conflicts=0, external_conflicts_above_their_level=0,
+                          external_conflicts_all_root=0, quiet_checks=0)
 
     def step(self, cmd, line, opno):
         st = parse_state(line)
@@ -173,7 +186,21 @@ class Judge:
             del self.decs[int(st["lvl"]):]       # pops and backjumps drop decisions from the top
         except (KeyError, ValueError):
             pass
-        if ints(st.get("dec", "")) != self.decs and op0 in ("a", "o", "n", "p", "k", "s", "c"):
+        if op0 in ("tc", "tx"):
+            nums = [int(x) for x in cmd.split(" ")[1:]]
+            cl = nums if op0 == "tx" else nums[1:]
+            self.T.append(cl)
+            self.stats["theory_clauses"] += 1
+            self.rup_lines.append("N " + " ".join(map(str, cl)))
+            if op0 == "tx" and prev is not None:
+                self.stats["external_conflicts"] += 1
+                lev = ints(prev.get("lev", ""))
+                hi = max([lev[l >> 1] for l in cl if (l >> 1) < len(lev)] or [0])
+                if hi < int(prev.get("lvl", 0)):
+                    self.stats["external_conflicts_above_their_level"] += 1
+                    if hi == 0:
+                        self.stats["external_conflicts_all_root"] += 1
+        if ints(st.get("dec", "")) != self.decs and op0 in ("a", "o", "n", "p", "k", "s", "c", "tx"):
             self.problems.append(("sat:decisions-list-wrong", dict(op=opno, cmd=cmd, reported=ints(st.get("dec", "")), expected=list(self.decs))))
         for kind, ls in parse_hooks(st.get("hooks", "")):
             if kind == 4:
@@ -192,23 +219,47 @@ class Judge:
                 self.N.append(ls)
                 self.rup_lines.append("N " + " ".join(map(str, ls)))
             else:
+                self.stats["theory_conflicts" if kind == 3 else "theory_lemmas"] += 1
+                if not any(sorted(ls) == sorted(t) for t in self.T):
+                    self.problems.append(("sat:theory-clause-not-declared", dict(op=opno, cmd=cmd, kind=kind, clause=ls)))
                 self.rup_lines.append("N " + " ".join(map(str, ls)))
         vals = st["vals"]
+        # root facts are never retracted
+        lev = ints(st.get("lev", ""))
+        for v, val in self.root_facts.items():
+            if v < len(vals) and vals[v] != val:
+                self.problems.append(("sat:root-fact-retracted", dict(op=opno, cmd=cmd, variable=v, was=val, now=vals[v])))
+                break
+        for v in range(1, min(len(vals), len(lev))):
+            if vals[v] != "U" and lev[v] == 0 and v not in self.root_facts:
+                self.root_facts[v] = vals[v]
         rc = st.get("rc")
         op = cmd.split(" ")[0]
-        if rc == "1" and st["q"] == "0" and "U" not in vals and op in ("p", "a", "n", "s"):
+        if rc == "1" and st["q"] == "0" and op in ("p", "a", "n", "s", "k", "tx"):
+            self.stats["quiet_checks"] += 1
+            for c in self.F + self.N + self.T:
+                if c and all(lit_val(vals, l) == "F" for l in c):
+                    self.problems.append(("sat:true-answer-with-a-falsified-clause", dict(op=opno, cmd=cmd, clause=c, vals=vals,
+                                                                                      kind="theory" if c in self.T else "clause")))
+                    break
+        if rc == "1" and st["q"] == "0" and "U" not in vals and op in ("p", "a", "n", "s", "tx"):
             self.stats["full_assignments"] += 1
-            for c in self.F:
+            for c in self.F + self.T:
                 if not clause_sat(vals, c):
                     self.problems.append(("sat:full-assignment-falsifies-clause", dict(op=opno, cmd=cmd, clause=c, vals=vals)))
                     break
         lvl_before = int(prev["lvl"]) if prev else 0
+        if rc == "0" and op == "tx" and nv <= self.max_solve_vars:
+            self.stats["root_false"] += 1
+            m = solve(self.F + self.N + self.T, nv) if st["lvl"] == "0" else None
+            if st["lvl"] != "0" or m is not None:
+                self.problems.append(("sat:external-conflict-false-but-satisfiable", dict(op=opno, cmd=cmd, model=m, level_after=st["lvl"])))
         if rc == "0" and op in ("c", "p", "a", "s", "n") and nv <= self.max_solve_vars:
             at_root = (lvl_before == 0 and op != "a") or (op == "a" and lvl_before == 0 and st["lvl"] == "0")
             # 'false' with no decision standing afterwards (op executed at root, or assume that ended at root ... see below)
             if lvl_before == 0 and op in ("c", "p", "s"):
                 self.stats["root_false"] += 1
-                m = solve(self.F + self.N, nv)
+                m = solve(self.F + self.N + self.T, nv)
                 if m is not None:
                     self.problems.append(("sat:false-at-root-but-satisfiable:" + op, dict(op=opno, cmd=cmd, model=m, clauses=len(self.F), nogoods=len(self.N))))
             elif op == "a" and prev is not None:
@@ -218,10 +269,10 @@ class Judge:
                 dec = decs_before
                 p = int(cmd.split(" ")[1])
                 if st["lvl"] == "0":
-                    m = solve(self.F + self.N, nv)
+                    m = solve(self.F + self.N + self.T, nv)
                     what = "clauses"
                 else:
-                    m = solve(self.F + self.N, nv, dec + [p])
+                    m = solve(self.F + self.N + self.T, nv, dec + [p])
                     what = "clauses+decisions+p"
                 if m is not None:
                     self.problems.append(("sat:assume-false-but-satisfiable", dict(op=opno, cmd=cmd, model=m, what=what)))
@@ -230,18 +281,18 @@ class Judge:
             self.stats["check_false"] += 1
             dec = decs_before
             lits = [int(x) for x in cmd.split(" ")[1:]]
-            m = solve(self.F + self.N, nv, dec + lits)
+            m = solve(self.F + self.N + self.T, nv, dec + lits)
             if m is not None:
                 self.problems.append(("sat:check-false-but-satisfiable", dict(op=opno, cmd=cmd, decisions=dec, model=m)))
         # sampled entailment of the current values (cheap: only small instances, only some states)
-        if nv <= 14 and rc in ("0", "1") and op in ("p", "a", "n", "k") and (opno % 5 == 0):
+        if nv <= 14 and rc in ("0", "1") and op in ("p", "a", "n", "k", "tx") and (opno % 5 == 0 or op == "tx"):
             dec = list(self.decs)
             for v in range(1, nv):
                 if vals[v] == "U":
                     continue
                 lit_true = 2 * v + (1 if vals[v] == "T" else 0)
                 self.stats["entail_checks"] += 1
-                m = solve(self.F + self.N, nv, dec + [lit_true ^ 1])
+                m = solve(self.F + self.N + self.T, nv, dec + [lit_true ^ 1])
                 if m is not None:
                     self.problems.append(("sat:value-not-entailed", dict(op=opno, cmd=cmd, literal=lit_true, decisions=dec, model=m)))
                     break
